@@ -342,6 +342,8 @@ def end_class(end):
         return "hang/cpu"
     if e == "wall":
         return "hang/wall"
+    if e == "exception":
+        return "uncaught-exception"
     if e == "exit":
         return "exit/%s" % end.get("code")
     return str(e)
